@@ -84,6 +84,15 @@ TABLE = [
     (('C12',), 'mistral.engine.workflows.Workflow.rerun', 'rerun_tasks',
      'mistral.workflow.base.WorkflowController.rerun_tasks', 'reset',
      'partial rerun becomes a full one'),
+    (('C12', 'C07'), 'mistral.workflow.base.WorkflowController.rerun_tasks',
+     'RunExistingTask', 'mistral.workflow.commands.RunExistingTask.__init__',
+     'reset', 'partial rerun becomes a full one'),
+    # --- results go back to the engine without waiting for it -------------------
+    (('C06',), 'mistral.executors.default_executor.DefaultExecutor.'
+     '_do_run_action', 'on_action_complete',
+     'mistral.rpc.clients.EngineClient.on_action_complete', 'async_',
+     'the executor would block on (and, on a timeout, fail and re-send an '
+     'error for) a result the engine has already received'),
     # --- routing ---------------------------------------------------------------
     (('C05', 'C01'), 'mistral.workflow.direct_workflow.'
      'DirectWorkflowController._find_next_commands_for_task',
@@ -176,6 +185,23 @@ def _supplied(prog, call, callee_q, param):
     return len(call.args) > idx
 
 
+def _value(prog, call, callee_q, param):
+    for k in call.keywords:
+        if k.arg == param:
+            return k.value
+    g = prog.funcs.get(callee_q)
+    a = g.node.args
+    params = [x.arg for x in a.posonlyargs + a.args]
+    if g.cls and params and params[0] in ('self', 'cls'):
+        params = params[1:]
+    if param in params and not any(isinstance(x, ast.Starred)
+                                   for x in call.args):
+        i = params.index(param)
+        if i < len(call.args):
+            return call.args[i]
+    return None
+
+
 def explicit_args(ctx, rule, prop):
     prog = ctx.prog
     n = 0
@@ -200,4 +226,16 @@ def explicit_args(ctx, rule, prop):
                        ctx.construct(f, extra='%s(%s=...)' % (cname, param)),
                        '%s is called without %s: %s' % (cname, param, why),
                        ctx.loc(f, c))
+            # a parameter of the caller that is handed on under its own
+            # name is handed on as received: nothing rebinds it on the way
+            # to the call (a "default" substituted for None / False here
+            # changes what the API asked for)
+            v = _value(prog, c, callee_q, param)
+            if isinstance(v, ast.Name) and v.id in f.params:
+                rd = U.reaching_defs(cfg, v.id).get(cfg.node_of(c).id, set())
+                rule.check(rd <= {'param'},
+                           ctx.construct(f, extra='%s forwarded unchanged'
+                                         % v.id),
+                           'parameter %s is rebound before it is passed to '
+                           '%s: %s' % (v.id, cname, why), ctx.loc(f, c))
     return n
